@@ -97,8 +97,8 @@ example : isSkip T.pre = false ∧ classify T.pre = .code ∧ getTextContent (.e
 document and every exclusion predicate, the text carried by the elements the traversal returns
 is, up to white space, exactly the source text of the document: the text nodes of the
 non-skipped, non-excluded content elements, each once, in the order of their content elements.
-(The definition of `src` shows the one place where text of a content element is NOT part of
-the result — a p/div with a block-level child, the recorded finding.) -/
+(Since fix 75d57dc a p/div with a block-level child contributes the whole text of its inline
+children too: `srcM`, `mixed_block_text_kept`.) -/
 theorem content_text_complete (p : Pos → Dom → Bool) (body : Dom) :
     squeeze (elementsText (extractWith p body)) = squeeze (src p (hasWrapper body) .root body) := by
   unfold elementsText
@@ -156,8 +156,8 @@ theorem nothing_excluded_same_source (p q : Pos → Dom → Bool) (w : Bool) (po
 neither skipped nor excluded, `src` holds ALL text nodes of a heading, of a pre/code, of a block
 quote, of a p/div without block-level children, the own text of a list item followed by its
 nested lists, and the text of every cell of a table.  With `content_text_complete` this is the
-content half of the property for every content element except a p/div that has a block-level
-child (`content_lost_only_in_mixed_block` below, `content_once_in_order_counterexample`). -/
+content half of the property for these content elements; a p/div that has a block-level child
+follows in `mixed_block_text_kept`. -/
 theorem source_text_complete (p : Pos → Dom → Bool) (w : Bool) (pos : Pos)
     (tag : Str) (attrs : List (Str × Str)) (kids : List Dom)
     (hs : isSkip tag = false) (hp : p pos (.elem tag attrs kids) = false) :
@@ -185,54 +185,97 @@ theorem source_text_complete (p : Pos → Dom → Bool) (w : Bool) (pos : Pos)
 example : isSkip T.p = false ∧ classify T.p = .pdiv true ∧ isBlockContainer [.text [120]] = false ∧
     squeeze (tnFlat (.elem T.p [] [.text [120]])) ≠ [] := by decide
 
-/-- … and the one exception: a p/div WITH a block-level child contributes the source text of its
-children only — text nodes that are its direct children are not part of the result (finding
-C19/content-missing-para-with-block-child; concrete witness in `content_once_in_order_counterexample`) -/
-theorem content_lost_only_in_mixed_block (p : Pos → Dom → Bool) (w : Bool) (pos : Pos)
+/-- … and a p/div WITH a block-level child (fix 75d57dc; before it, this was the one exception:
+the source text was that of the children only and text nodes that are direct children were lost):
+its source text is that of its children in order, where an INLINE child — a text node, an inline
+element, anything that neither is nor contains an element the traversal handles itself —
+contributes ALL its text nodes (`tnFlat k`), in place, and every other child its own source
+text. -/
+theorem mixed_block_text_kept (p : Pos → Dom → Bool) (w : Bool) (pos : Pos)
     (tag : Str) (attrs : List (Str × Str)) (kids : List Dom) (isP : Bool)
     (hs : isSkip tag = false) (hp : p pos (.elem tag attrs kids) = false)
     (hc : classify tag = .pdiv isP) (hb : isBlockContainer kids = true) :
-    src p w pos (.elem tag attrs kids) = srcL p w (pos.kid w tag) kids ∧
-    (∀ s, src p w (pos.kid w tag) (.text s) = []) := by
-  constructor
+    src p w pos (.elem tag attrs kids) = srcM p w (pos.kid w tag) kids ∧
+    (∀ (a b : List Dom) (k : Dom), srcM p w (pos.kid w tag) (a ++ k :: b) =
+      srcM p w (pos.kid w tag) a ++ (if isInline k then tnFlat k else src p w (pos.kid w tag) k) ++
+        srcM p w (pos.kid w tag) b) ∧
+    (∀ s, isInline (.text s) = true ∧ tnFlat (.text s) = s) := by
+  refine ⟨?_, ?_, ?_⟩
   · unfold src; simp only [hs, hp, hc, Bool.false_eq_true, if_false]; simp [hb]
-  · intro s; simp [src]
+  · intro a b k
+    rw [srcM_append]; simp only [srcM, List.append_assoc]
+  · intro s; exact ⟨rfl, rfl⟩
+
+example : isSkip T.div = false ∧ classify T.div = .pdiv false ∧
+    isBlockContainer [.text [120], .elem T.p [] [.text [121]]] = true := by decide
 
 /-! ## the content half of the property, as stated, wherever the code satisfies it
 
 `want` (Model/HtmlSpec.lean) is written from the property text alone: every heading, paragraph,
 list item, table cell, pre/code and block quote that is neither skipped nor excluded returns all
-of its text — a paragraph also when it has block-level children.  The full statement
-"returned text = wanted text for every document" does NOT hold for the code
-(`content_complete_counterexample`); it holds for every document without a mixed paragraph: -/
+of its text — a paragraph also when it has block-level children: the content elements inside it
+are read by their own rules, everything else in the paragraph is its own text and is wanted
+whole, also where it sits in an element that merely wraps some of those content elements.
+Before fix 75d57dc "returned text = wanted text" failed for every paragraph with a block-level
+child and text of its own (`content_complete_pinned_counterexample`).  Since the fix it holds for
+every document in which no wrapper inside such a paragraph has text of its own (`noWrapped`); it
+still fails when the paragraph holds a wrapper (span, a, form, section, …) around a block-level
+element and that wrapper has text (`content_complete_counterexample`). -/
 
-/-- CONTENT, FULL STATEMENT under the one hypothesis the code needs: if no `p` of the document has
-both a block-level child and non-blank text of its own (`noMixed`), then for every exclusion
-predicate the text carried by the returned elements is, up to white space, exactly the wanted
-text — every text node of every content element, once, in content-element order, nothing from
-script/style, nothing from excluded subtrees. -/
-theorem content_complete_unless_mixed_paragraph (p : Pos → Dom → Bool) (body : Dom)
-    (h : noMixed body = true) :
-    squeeze (elementsText (extractWith p body)) = squeeze (want p (hasWrapper body) .root body) := by
+/-- CONTENT, FULL STATEMENT under the one hypothesis the code needs: if inside the paragraphs that
+have a block-level child no element that merely wraps content elements (anything but a `div` or a
+content element itself) has text in its inline children (`noWrapped`), then for every exclusion
+predicate the text carried by the returned elements is, up to white space,
+exactly the wanted text — every text node of every content element, once, in content-element
+order, nothing from script/style, nothing from excluded subtrees. -/
+theorem content_complete_unless_wrapped_paragraph (p : Pos → Dom → Bool) (body : Dom)
+    (h : noWrapped body = true) :
+    squeeze (elementsText (extractWith p body)) = squeeze (want p (hasWrapper body) .root false body) := by
   rw [content_text_complete]
-  exact src_want p (hasWrapper body) body .root h
+  exact src_want p (hasWrapper body) body .root false h
 
-example : noMixed (.elem T.body [] [.elem T.p [] [.text [120]], .elem T.ul [] [.elem T.li [] [.text [121]]]]) = true := by
+example : noWrapped (.elem T.body [] [.elem T.p [] [.text [120]], .elem T.ul [] [.elem T.li [] [.text [121]]]]) = true := by
   decide
 
 /-- … for the element list of a reader, any raw mode value, from the document node (as above: a
 statement about the walk, for every tree; a reader exists within the depth limit only) -/
-theorem content_complete_unless_mixed_paragraph_api (m : Int) (doc : Dom) (h : noMixed (bodyOf doc) = true) :
+theorem content_complete_unless_wrapped_paragraph_api (m : Int) (doc : Dom) (h : noWrapped (bodyOf doc) = true) :
     squeeze (elementsText (extractI m doc)) = squeeze (wantOf m doc) := by
   unfold extractI wantOf
-  exact content_complete_unless_mixed_paragraph _ _ h
+  exact content_complete_unless_wrapped_paragraph _ _ h
 
-/-- the hypothesis cannot be dropped: at `<p>x<table><tr><td>c</td></tr></table></p>` the wanted text
-is "xc", the returned text is "c" (finding C19/content-missing-para-with-block-child) -/
-theorem content_complete_counterexample :
+/-- the documents of the repaired finding are covered now (they were excluded by the hypothesis
+`noMixed` of the statement before the fix) -/
+theorem content_complete_repaired_witness :
+    noMixed Tabula.C19.witnessPTable = false ∧ noWrapped Tabula.C19.witnessPTable = true ∧
+    squeeze (elementsText (extract .none Tabula.C19.witnessPTable)) =
+      squeeze (want (excluded .none) false .root false Tabula.C19.witnessPTable) := by
+  decide +kernel
+
+/-- BEFORE fix 75d57dc (old traversal): at `<p>x<table><tr><td>c</td></tr></table></p>` the wanted
+text is "xc", the returned text was "c" (finding C19/content-missing-para-with-block-child) -/
+theorem content_complete_pinned_counterexample :
     noMixed Tabula.C19.witnessPTable = false ∧
-    squeeze (want (excluded .none) false .root Tabula.C19.witnessPTable) = [120, 99] ∧
-    squeeze (elementsText (extract .none Tabula.C19.witnessPTable)) = [99] := by
+    squeeze (want (excluded .none) false .root false Tabula.C19.witnessPTable) = [120, 99] ∧
+    squeeze (elementsText (extractOld .none Tabula.C19.witnessPTable)) = [99] ∧
+    squeeze (elementsText (extract .none Tabula.C19.witnessPTable)) = [120, 99] := by
+  decide +kernel
+
+/-- the hypothesis that is left cannot be dropped: at
+`<p>x<table>…c…</table><span>y<table>…d…</table></span></p>` the wanted text is "xcyd", the
+returned text is "xcd" (finding C19/content-missing-para-in-wrapper) -/
+theorem content_complete_counterexample :
+    noWrapped Tabula.C19.witnessPWrapper = false ∧
+    squeeze (want (excluded .none) false .root false Tabula.C19.witnessPWrapper) = [120, 99, 121, 100] ∧
+    squeeze (elementsText (extract .none Tabula.C19.witnessPWrapper)) = [120, 99, 100] := by
+  decide +kernel
+
+/-- … nor for a sectioning element inside the paragraph:
+`<p>x<table><section>y<div>z</div></section>…c…</table></p>` wants "xyzc" and returns "xzc" -/
+theorem content_complete_counterexample_section :
+    noWrapped Tabula.C19.witnessPSection = false ∧
+    squeeze (want (excluded .none) false .root false Tabula.C19.witnessPSection) = [120, 121, 122, 99] ∧
+    squeeze (elementsText (extract .none Tabula.C19.witnessPSection)) = [120, 122, 99] := by
   decide +kernel
 
 end Tabula.C19Text
